@@ -512,7 +512,7 @@ def run_history(progs, flavour="FExtended", attrs0=()):
         except BaseException as e:   # noqa: what run() lets out is part of the observation
             raised = e
         o = {"trace": events(), "raised": raised_kind(raised), "log": [list(x) for x in env.log],
-             "leftover": len(case._cleanups),
+             "leftover": len(getattr(case, "_cleanups", ())),   # private name: tolerate a rename (the re-run observes leftovers too)
              "attrs": env.namespaces()}
         if hasattr(result, "wasSuccessful"):
             o["ok"] = bool(result.wasSuccessful())
